@@ -191,6 +191,21 @@ def check_rigid(r) -> list[Fail]:
         else:
             idx = sorted({i % n for i in r["idx"]})
             sub = m.substructure(idx)
+            pe = r.get("parent_edit", 0)
+            rest0 = [i for i in range(n) if i not in idx]
+            if pe == 1 and rest0:
+                # the parent loses an unselected atom after the substructure was taken: the selection is the same atoms
+                sel = [m.atoms[i] for i in idx]
+                x = rest0[r["rseed"] % len(rest0)]
+                m.del_atom(m.atoms[x])
+                before = np.delete(before, x, axis=0)
+                n -= 1
+                idx = [next(j for j, a_ in enumerate(m.atoms) if a_ is s_) for s_ in sel]
+            elif pe == 2:
+                from molli.chem import Atom
+                m.add_atom(Atom("H"), [9.0, 9.0, 9.0])
+                before = np.vstack([before, [[9.0, 9.0, 9.0]]])
+                n += 1
             if op == "sub_translate":
                 sub.translate(v)
                 exp = before[idx] + v
@@ -248,7 +263,7 @@ def check_rigid(r) -> list[Fail]:
 
 def classify_rigid(r):
     n = len(r["mol"]["atoms"])
-    return n >= 4, ["op=" + r["op"], f"n_conf={len(r['mol'].get('confs', []))}"]
+    return n >= 4, ["op=" + r["op"], f"n_conf={len(r['mol'].get('confs', []))}"] + ([["", "parent_lost_an_atom_after_selection", "parent_gained_an_atom_after_selection"][r.get("parent_edit", 0)]] if r["op"].startswith("sub_") and r.get("parent_edit") else [])
 
 
 def strat_rigid(tier):
@@ -256,6 +271,7 @@ def strat_rigid(tier):
     return st.fixed_dictionaries({
         "op": st.sampled_from(["translate", "transform", "sub_translate", "sub_transform", "ens_translate1", "ens_translate2", "ens_rotate1", "ens_rotate_per_conf", "center_at_atom", "center_at_core"]),
         "mol": ensr, "rseed": st.integers(0, 10**6), "vec": st.lists(st.floats(-20, 20), min_size=3, max_size=3), "idx": st.lists(st.integers(0, 60), min_size=1, max_size=6),
+        "parent_edit": st.sampled_from([0, 0, 1, 1, 2]),
     })
 
 
